@@ -444,6 +444,93 @@ def run_case(run, model, vsim, d, case, quick):
     return ok_all, impl_desc, mparts
 
 
+def run_fsize_cases(run, model, vsim, d, quick):
+    """real partial writes followed by real process death: RLIMIT_FSIZE = L bytes.  The write that crosses the limit
+    persists exactly the bytes up to L (short count), the next write of the remainder raises SIGXFSZ and the process
+    dies.  (strace cannot be used here -- its own output file would hit the limit -- so the syscall trace is not
+    compared: the files left, the SAVE lines and the property oracle are.)"""
+    import resource, signal as _sig
+    r = V.rng("C11fsize")
+    small = {"first": 0, "pre": 3, "saves": ["text", "text", "binary", "text"]}
+    large = {"first": 0, "pre": 150, "saves": ["text", "binary", "text"]}
+    ncase = 0
+    for label, sess in (("small", small), ("large", large)):
+        refs, chunking, rel = reference(vsim, d, sess)
+        sizes = [len(x) for x in refs]
+        refs_by_ver = {version_of(sess, i): rb for i, rb in enumerate(refs)}
+        ops = [x["op"] + (str(x["n"]) if x["op"] == "W" else "") for x in rel]
+        limits = set()
+        for i, sz in enumerate(sizes):
+            limits |= {1, sz - 1, sz // 2, max(1, sz - 8)}
+            for c in chunking[i]["chunks"]:
+                limits |= {c, c - 1, c + 1}
+        limits = sorted(l for l in limits if 0 < l < max(sizes))
+        if quick:
+            limits = sorted(r.sample(limits, min(len(limits), 7)))
+        for L in limits:
+            # the plan for the model: everything succeeds until the write that crosses L in the first save larger than L
+            plan, done, pos = [], False, 0
+            st = save_start(ops)
+            for o in ops:
+                if o.startswith(st):
+                    pos = 0
+                if o.startswith("W") and not done:
+                    nbytes = int(o[1:])
+                    if pos + nbytes > L:
+                        plan.append("k%d" % (L - pos))
+                        done = True
+                        break
+                    pos += nbytes
+                plan.append("o")
+            if not done:
+                continue
+            d.put({})
+            scn = os.path.join(d.path, "s.scn")
+            open(scn, "w").write(scenario(sess))
+
+            def limit():
+                resource.setrlimit(resource.RLIMIT_FSIZE, (L, L))
+                resource.setrlimit(resource.RLIMIT_CORE, (0, 0))
+            try:
+                pr = subprocess.run([vsim, scn], cwd=d.path, preexec_fn=limit, stdout=subprocess.PIPE, stderr=subprocess.PIPE, timeout=120)
+                rc, out = pr.returncode, pr.stdout.decode("latin1")
+            except subprocess.TimeoutExpired:
+                run.violation("statefile.hang-under-file-size-limit", "saving with RLIMIT_FSIZE=%d hangs" % L,
+                              {"kind": "fsize", "limit": L, "session": sess})
+                continue
+            os.remove(scn)
+            pres = ["ok" if l.strip() == "SAVE err=ok" else "err" for l in out.split("\n") if l.startswith("SAVE err=")]
+            files = d.files()
+            obs = observe(files, refs_by_ver)
+            rcm, mout, em = V.run_lines(model, [model_line({}, [(sess, chunking, plan)])])
+            mp = (mout[0] if mout else "").strip()
+            mm = re.match(r"results=(\S*) trace=(\S*) (cur:\S+ old:\S+ tmp:\S+) safe=(\w+) reg=(\S+)", mp)
+            ncase += 1
+            run.count("fsize:%s:%d" % (label, L), True)
+            run.dist("protocol:partial-write-death(RLIMIT_FSIZE)")
+            desc = {"limit": L, "rc": rc, "results": pres, "cur": obs["cur"] if obs["cur"] == "-" else list(obs["cur"]),
+                    "old": obs["old"] if obs["old"] == "-" else list(obs["old"]), "tmp": obs["tmp"] if obs["tmp"] == "-" else list(obs["tmp"])}
+            died = rc == -_sig.SIGXFSZ
+            if mm:
+                mres = [x for x in mm.group(1).split(",") if x]
+                same = died and match_model(obs, mm.group(3), refs_by_ver) and mres[:-1] == pres and mres[-1:] == ["dead"]
+                if not same:
+                    run.mismatch("protocol-tie", {"label": "%s:fsize=%d" % (label, L), "plan": plan}, desc, mp)
+            comp = complete_versions(files, refs_by_ver)
+            loadable = []
+            for k, nme in (("cur", NAME), ("old", NAME + ".old")):
+                if files[k] is not None:
+                    rcl, ld = try_load(vsim, d, nme, run, "fsize=%d" % L)
+                    if ld and ld[0] == "ok" and (k, ld[1]) in comp:
+                        loadable.append(k)
+            if "ok" in pres and not loadable:
+                run.violation("statefile.partial-write-death-no-complete-state",
+                              "a process limited to files of %d bytes dies (SIGXFSZ) inside the write of save %d after %d save(s) had completed; "
+                              "neither %s nor %s.old is complete and loadable: %s" % (L, len(pres) + 1, pres.count("ok"), NAME, NAME, json.dumps(desc)),
+                              {"kind": "fsize", "limit": L, "session": sess})
+    run.cov["correspondence"]["partial_write_death_cases"] = ncase
+
+
 def kill_plans(nsys):
     return [["o"] * k + ["k0"] for k in range(nsys)]
 
@@ -457,6 +544,11 @@ def run_crash(run, model, vsim, quick):
     # 1. one process, death before every file system call of every save
     for label, sess in (("small", small), ("large", large)):
         refs, chunking, rel = reference(vsim, d, sess)
+        if any(len(x) == 0 for x in refs):
+            run.violation("statefile.save-does-not-leave-the-file", "a fault-free sequence of saves to distinct names leaves %d of %d state files "
+                          "missing or empty (trace of the same saves to one name: %s)" % (sum(1 for x in refs if not x), len(refs), trace_str(rel)),
+                          {"kind": "crash", "case": {"kind": "fault-free", "label": label + ":fault-free", "sessions": [(sess, [])]}})
+            return
         n = len(rel)
         run.sample({"fault_free_trace_" + label: trace_str(rel), "state_sizes": [len(x) for x in refs]})
         ks = list(range(n)) if (not quick or n <= 24) else sorted(r.sample(range(n), 24))
@@ -521,6 +613,7 @@ def run_crash(run, model, vsim, quick):
         if c["kind"] == "witness":
             run.sample({"witness": c["label"], "impl": impl_desc, "model": mparts})
     run.cov["correspondence"]["protocol_cases"] = len(cases)
+    run_fsize_cases(run, model, vsim, d, quick)
     load_exe = vsim
     if not quick:
         # thorough tier: the load search runs a build with AddressSanitizer + UBSan (-fno-sanitize-recover): an
@@ -714,6 +807,21 @@ def replay(rp, vsim, model):
         print("impl :", json.dumps(impl_desc))
         print("model:", mparts)
         print("files left in", d.path, {k: (len(v) if v is not None else None) for k, v in d.files().items()})
+    elif rp["kind"] == "fsize":
+        import resource
+        L, sess = rp["limit"], rp["session"]
+        scn = os.path.join(d.path, "s.scn")
+        open(scn, "w").write(scenario(sess))
+
+        def limit():
+            resource.setrlimit(resource.RLIMIT_FSIZE, (L, L))
+            resource.setrlimit(resource.RLIMIT_CORE, (0, 0))
+        pr = subprocess.run([vsim, scn], cwd=d.path, preexec_fn=limit, stdout=subprocess.PIPE, stderr=subprocess.PIPE, timeout=120)
+        print("RLIMIT_FSIZE=%d rc=%d" % (L, pr.returncode), [l for l in pr.stdout.decode("latin1").split("\n") if l.startswith("SAVE")])
+        print("files left in", d.path, {k: (len(v) if v is not None else None) for k, v in d.files().items()})
+        for nme in (NAME, NAME + ".old"):
+            if os.path.exists(os.path.join(d.path, nme)):
+                print("load", nme, try_load_(vsim, d, nme))
     elif rp["kind"] == "load-name":
         sess = {"first": 0, "pre": 3, "saves": ["text", "text"]}
         rel, res, rc = run_session(vsim, d, sess, [])
